@@ -861,6 +861,22 @@ func genAgain(r *rng, k int) *scenario {
 		w.InboxForActor[actorID(local, "bob")] = inboxOf(actorID(local, "bob"))
 		second = mk("alice", 1)
 		second.Pre = mk("bob", 0)
+		if k%14 == 13 { // two outboxes with one path on two hosts this server answers for: each bare object is wrapped for its own outbox's owner
+			mirror := "https://mirror.example"
+			ma := actorID(mirror, "alice")
+			w.ActorForOutbox[outboxOf(ma)] = ma
+			w.Store[ma] = person(ma)
+			w.Owned[ma] = true
+			note := func(i int) *scenario {
+				b := jmap{"@context": asCtx, "type": "Note", "content": fmt.Sprintf("bare %d-%d", k, i), "to": pick(r, remoteActors)}
+				sc := outboxScenario("again:two-hosts", w, cfg, b)
+				sc.Path = "/users/alice/outbox"
+				return sc
+			}
+			second = note(1)
+			second.Pre = note(0)
+			second.Pre.Host = "mirror.example"
+		}
 	case 4: // two GETs, the clock of the first ahead of the second's: each response carries its own Date
 		g := genGet(r, []string{"inbox", "outbox", "handler"}[k%3], k)
 		g.Family = "again:get-twice"
@@ -1002,6 +1018,19 @@ func genGet(r *rng, kind string, k int) *scenario {
 			}
 			sc.Path = "/tomb/1"
 		}
+		if k%5 == 2 { // embedded values without an id, and two embedded values under one id: each is stripped, at every depth
+			id := local + "/activities/idless"
+			n1 := jmap{"type": "Note", "content": "no id, one", "bto": actorID(remote, "carol")}
+			n2 := jmap{"type": "Note", "content": "no id, two", "bcc": []interface{}{actorID(remote, "dave"), actorID(remote, "erin")},
+				"object": jmap{"type": "Note", "content": "no id, below", "bto": actorID(remote, "erin")}}
+			same1 := jmap{"type": "Note", "id": local + "/notes/same", "content": "first under this id", "bcc": actorID(remote, "dave")}
+			same2 := jmap{"type": "Note", "id": local + "/notes/same", "content": "second under this id", "bto": actorID(remote, "carol")}
+			w.Store[id] = jmap{"@context": asCtx, "type": "Offer", "id": id, "actor": alice, "to": public, "bto": actorID(remote, "carol"),
+				"object": []interface{}{n1, n2, same1, same2}}
+			sc.Path = "/activities/idless"
+			w.Clock = int64(r.intn(2000000000)) - 100000000
+			return sc
+		}
 		if r.chance(1, 2) { // hidden recipients at several depths
 			id := local + "/activities/served"
 			inner := jmap{"type": "Note", "id": local + "/notes/x", "content": "x", "bto": actorID(remote, "carol"), "bcc": []interface{}{actorID(remote, "dave"), actorID(remote, "erin")}}
@@ -1056,7 +1085,7 @@ func gateScenarios(r *rng, sample int) []*scenario {
 				continue // the GET entry points of a custom actor are the application's delegate
 			}
 			for _, auth := range []string{"ok", "denied", "error", "errortrue"} {
-				for _, block := range []string{"no", "yes", "error"} {
+				for _, block := range []string{"no", "yes", "error", "errortrue"} {
 					if entry != "postinbox" && block != "no" {
 						continue
 					}
@@ -1075,6 +1104,8 @@ func gateScenarios(r *rng, sample int) []*scenario {
 									cfg.Blocked = []string{actorID(remote, "carol")}
 								case "error":
 									cfg.BlockError = true
+								case "errortrue":
+									cfg.BlockError, cfg.BlockErrorTrue = true, true
 								}
 								sc := &scenario{Family: "gate:" + entry, Cfg: cfg, Entry: entry, Method: method, Tags: map[string]bool{}}
 								sc.Note = fmt.Sprintf("%s/%s/auth=%s/block=%s/%s/h%d/b%d", entry, proto, auth, block, method, hi, bi)
@@ -1125,7 +1156,9 @@ func gateScenarios(r *rng, sample int) []*scenario {
 		wrongMethodDisabled := sc.Method != "POST" && sc.ContentType == apContentType && ((sc.Entry == "postinbox" && !sc.Cfg.Federating) || (sc.Entry == "postoutbox" && !sc.Cfg.Social)) && sc.Cfg.Auth == "ok" && sc.Body != nil && sc.Body["type"] == "Like"
 		authTrueErr := sc.Cfg.Auth == "errortrue" && sc.Method == map[string]string{"postinbox": "POST", "postoutbox": "POST", "getinbox": "GET", "getoutbox": "GET", "handler": "GET"}[sc.Entry] &&
 			(sc.ContentType == apContentType || sc.Accept == apContentType) && sc.Cfg.Social && sc.Cfg.Federating && len(sc.Cfg.Blocked) == 0 && !sc.Cfg.BlockError && (sc.Body == nil || sc.Body["type"] == "Like" || sc.Body["type"] == "Note")
-		if wrongMethodDisabled || authTrueErr {
+		blockTrueErr := sc.Cfg.BlockErrorTrue && sc.Entry == "postinbox" && sc.Method == "POST" && sc.ContentType == apContentType && sc.Cfg.Auth == "ok" &&
+			sc.Cfg.Federating && sc.Body != nil && sc.Body["type"] == "Like"
+		if wrongMethodDisabled || authTrueErr || blockTrueErr {
 			sc.World = baseWorld(r)
 			out = append(out, sc)
 		}
